@@ -10,6 +10,7 @@ import (
 	"math/rand"
 	"os"
 	"sort"
+	"sync"
 
 	"github.com/kubewharf/kubebrain/pkg/backend"
 	"github.com/kubewharf/kubebrain/pkg/backend/coder"
@@ -167,10 +168,45 @@ func cmdCodeRun(args []string) int {
 		}
 		emit(gate.Event{"e": "PrefixEnd", "p": byteList(p), "end": byteList(backend.PrefixEnd(p))})
 	}
+	// the coder is called by every request goroutine: the same evaluations from 8 goroutines at once must give what they give
+	// alone. Every concurrent evaluation that differs from the sequential one is recorded (and judged like any other).
+	var mu sync.Mutex
+	var wg sync.WaitGroup
+	concEvals, concBad := 0, 0
+	for g := 0; g < 8; g++ {
+		wg.Add(1)
+		go func(g int) {
+			defer wg.Done()
+			for it := 0; it < 300; it++ {
+				for i, k := range keys {
+					r := revs[(i+it+g)%len(revs)]
+					if r == 0 {
+						r = 1
+					}
+					enc := c.EncodeObjectKey(k, r)
+					dk, dr, derr := c.Decode(enc)
+					bad := derr != nil || dr != r || !bytes.Equal(dk, k)
+					mu.Lock()
+					concEvals++
+					if bad && concBad < 50 {
+						concBad++
+						r8 := make([]byte, 8)
+						binary.BigEndian.PutUint64(r8, r)
+						d8 := make([]byte, 8)
+						binary.BigEndian.PutUint64(d8, dr)
+						emit(gate.Event{"e": "OrderReset"})
+						emit(gate.Event{"e": "Enc", "k": byteList(k), "r": byteList(r8), "enc": byteList(enc), "dk": byteList(dk), "dr": byteList(d8), "dok": derr == nil, "concurrent": true})
+					}
+					mu.Unlock()
+				}
+			}
+		}(g)
+	}
+	wg.Wait()
 	bw.Flush()
 	w.Close()
 	if *report != "" {
-		bs, _ := json.Marshal(map[string]interface{}{"behaviours": n, "nontrivial": n, "exhaustive_keys": len(keys), "revisions": len(revs), "random_pairs": len(pairs)})
+		bs, _ := json.Marshal(map[string]interface{}{"behaviours": n, "nontrivial": n, "concurrent_evaluations": concEvals, "concurrent_wrong": concBad, "exhaustive_keys": len(keys), "revisions": len(revs), "random_pairs": len(pairs)})
 		os.WriteFile(*report, bs, 0644)
 	}
 	fmt.Printf("coderun evaluations=%d exhaustive keys=%d\n", n, len(keys))
